@@ -17,7 +17,7 @@ Record auction_wf (a : auction) : Prop := {
   awf_amt : 0 < a_sell_amt a;
   awf_denoms : a_sell_denom a <> a_pay_denom a;
   awf_ends : (1 <= length (a_ends a) <= N.to_nat (a_max_round a) + 1)%nat;
-  awf_maxr : (a_max_round a <= 30)%N;
+  awf_maxr : (a_max_round a <= MaxExtendedRound)%N;
   awf_scheds : scheds_wf a;
   awf_nscheds : (length (a_scheds a) <= MaxNumVestingSchedules)%nat;
   awf_batch : a_type a = Batch -> 0 < a_min_price a /\ 0 < a_rate a /\ a_remaining a = 0 /\ 0 <= a_matched_price a;
